@@ -30,7 +30,8 @@ RULE = ("kind=rank: 0-8 candidates + base; dummy models (any parameter count, ra
         "(NaN, zeros, near-bound values); strictness strings rendered from random ASTs of the documented grammar "
         "(names, name-op-number, number-op-name, and/or/not, parentheses, random case/spacing) or ''; cut-off none / "
         "number / (p_forward, p_backward) pair; penalties none or multiples of 1/4; parent maps (random earlier model "
-        "or base). kind=lrt: cutoff/test/p_value/best_of_many on dummy models. kind=crit: calculate_aic/bic and "
+        "or base); for real models sharing a data set also tools.common.create_results (final model), with the base model made "
+        "ineligible (NaN OFV / failing strictness) in 12 % of the cases. kind=lrt: cutoff/test/p_value/best_of_many on dummy models. kind=crit: calculate_aic/bic and "
         "_categorize_parameters on every pool model. kind=stats: bootstrap / cdd / shrinkage statistics on <= 50 "
         "replicate vectors of short decimals, and delta-method standard errors of random expressions (+ - * / ^ sqrt log exp "
         "over 1-4 of 2-6 parameters) with exact covariance S(LL^T+D)S; parameter labels are pheno-style, NONMEM-style "
@@ -57,7 +58,7 @@ ASSUMPTIONS = [
 
 
 def budget(tier):
-    return int(__import__("os").environ.get("VERIF_BUDGET", 0)) or {"quick": 2400, "thorough": 40000}[tier]
+    return int(__import__("os").environ.get("VERIF_BUDGET", 0)) or {"quick": 2400, "thorough": 30000}[tier]
 
 
 gen_cases = U.gen_cases
